@@ -83,6 +83,28 @@ def scorer_model(sc):
     return None
 
 
+def model_tables(mdl):
+    """(vocabulary dict, (prior_neg, prior_pos), neg list, pos list) of a fitted pipeline, or None when the tables are
+    not kept in a representation this harness knows (then callers fall back to the model's public prediction)"""
+    try:
+        vocab = dict(mdl.transformer.vocabulary)
+        est = mdl.estimator
+        prior = tuple(est.class_prior)
+        ll = getattr(est, "log_likelihood", None)
+        if ll is not None:
+            return vocab, prior, list(ll["negative_class"]), list(ll["positive_class"])
+        flp = getattr(est, "feature_log_prob", None)
+        if flp is not None:
+            flp = list(flp)
+            if len(flp) == 2 and len(flp[0]) == len(vocab):
+                return vocab, prior, list(flp[0]), list(flp[1])
+            if flp and len(flp) == len(vocab) and len(flp[0]) == 2:
+                return vocab, prior, [r[0] for r in flp], [r[1] for r in flp]
+    except Exception:
+        return None
+    return None
+
+
 def _install_text_log(m, directory):
     """tools/vocab_audit.py: record every distinct text handed to the pattern matcher (one json string per line,
     one file per process).  Only active when QAV_TEXT_LOG names a directory; observation only."""
